@@ -72,6 +72,179 @@ class Cls:
                         self.class_attrs[t.id] = st.value
 
 
+def _inline_simple_properties(tree):
+    """A read-only ``@property`` whose body is ``return <expression over
+    self>`` is an accessor: reads ``self.<prop>`` inside the class are
+    replaced by that expression (positions of the read are kept)."""
+    import copy as _copy
+    for cd in tree.body:
+        if not isinstance(cd, ast.ClassDef):
+            continue
+        props = {}
+        for m in cd.body:
+            if not (isinstance(m, ast.FunctionDef) and any(
+                    isinstance(d, ast.Name) and d.id == 'property'
+                    for d in m.decorator_list)):
+                continue
+            body = [b for b in m.body if not (
+                isinstance(b, ast.Expr) and isinstance(b.value, ast.Constant)
+                and isinstance(b.value.value, str))]
+            if len(body) == 1 and isinstance(body[0], ast.Return) and \
+                    body[0].value is not None and len(m.args.args) == 1 and \
+                    not any(isinstance(x, (ast.Call, ast.Lambda))
+                            for x in ast.walk(body[0].value)):
+                props[m.name] = (m.args.args[0].arg, body[0].value)
+        setters = {d.value.id for m in cd.body
+                   if isinstance(m, ast.FunctionDef)
+                   for d in m.decorator_list
+                   if isinstance(d, ast.Attribute) and isinstance(
+                       d.value, ast.Name)}
+        props = {k: v for k, v in props.items() if k not in setters}
+        if not props:
+            continue
+
+        class T(ast.NodeTransformer):
+            def __init__(self, self_name):
+                self.self_name = self_name
+
+            def visit_Attribute(self, n):
+                self.generic_visit(n)
+                if isinstance(n.ctx, ast.Load) and isinstance(
+                        n.value, ast.Name) and n.value.id == self.self_name \
+                        and n.attr in props:
+                    pself, expr = props[n.attr]
+                    new = _copy.deepcopy(expr)
+                    for x in ast.walk(new):
+                        if isinstance(x, ast.Name) and x.id == pself:
+                            x.id = self.self_name
+                        if hasattr(x, 'lineno'):
+                            ast.copy_location(x, n)
+                    return new
+                return n
+        for m in cd.body:
+            if isinstance(m, ast.FunctionDef) and m.name not in props and \
+                    m.args.args:
+                sn = m.args.args[0].arg
+                m.body = [T(sn).visit(b) for b in m.body]
+
+
+def _first_atom(e):
+    """The sub-expression of a test that is evaluated unconditionally."""
+    while True:
+        if isinstance(e, ast.BoolOp):
+            e = e.values[0]
+        elif isinstance(e, ast.UnaryOp) and isinstance(e.op, ast.Not):
+            e = e.operand
+        else:
+            return e
+
+
+def _hoist_walrus(tree):
+    """``if (x := E) is None:`` is ``x = E`` followed by ``if x is None:``;
+    ``while len(b := f()) > 0: body`` is ``while True: b = f(); if not
+    (len(b) > 0): break; body``.  Only assignment expressions inside the
+    unconditionally evaluated first operand of the test are hoisted (the
+    rewrite keeps the evaluation order); others are left alone."""
+
+    def hoist(test):
+        atom = _first_atom(test)
+        pre = []
+
+        class H(ast.NodeTransformer):
+            def visit_NamedExpr(self, n):
+                self.generic_visit(n)
+                pre.append(ast.copy_location(ast.Assign(
+                    targets=[ast.copy_location(ast.Name(
+                        id=n.target.id, ctx=ast.Store()), n)],
+                    value=n.value, lineno=n.lineno), n))
+                return ast.copy_location(
+                    ast.Name(id=n.target.id, ctx=ast.Load()), n)
+
+            def visit_Lambda(self, n):
+                return n
+        if not any(isinstance(x, ast.NamedExpr) for x in ast.walk(atom)):
+            return test, []
+        # replace inside the first atom only (in place: the atom object is
+        # part of ``test``)
+        parent = None
+        for p in ast.walk(test):
+            for fld, val in ast.iter_fields(p):
+                if val is atom:
+                    parent = (p, fld, None)
+                elif isinstance(val, list):
+                    for i, x in enumerate(val):
+                        if x is atom:
+                            parent = (p, fld, i)
+        new_atom = H().visit(atom)
+        if parent is None:
+            test = new_atom
+        elif parent[2] is None:
+            setattr(parent[0], parent[1], new_atom)
+        else:
+            getattr(parent[0], parent[1])[parent[2]] = new_atom
+        return test, pre
+
+    def fix_block(stmts):
+        out = []
+        for st in stmts:
+            for fld in ('body', 'orelse', 'finalbody'):
+                if isinstance(getattr(st, fld, None), list):
+                    setattr(st, fld, fix_block(getattr(st, fld)))
+            for h in getattr(st, 'handlers', []) or []:
+                h.body = fix_block(h.body)
+            if isinstance(st, ast.If):
+                st.test, pre = hoist(st.test)
+                out.extend(pre)
+                out.append(st)
+            elif isinstance(st, ast.While) and not st.orelse and any(
+                    isinstance(x, ast.NamedExpr)
+                    for x in ast.walk(_first_atom(st.test))):
+                test, pre = hoist(st.test)
+                brk = ast.copy_location(ast.If(
+                    test=ast.copy_location(ast.UnaryOp(
+                        op=ast.Not(), operand=test), st.test),
+                    body=[ast.copy_location(ast.Break(), st)], orelse=[]), st)
+                st.test = ast.copy_location(ast.Constant(value=True), st)
+                st.body = pre + [brk] + st.body
+                out.append(st)
+            else:
+                out.append(st)
+        return out
+    for node in ast.walk(tree):
+        if isinstance(node, ast.FunctionDef):
+            node.body = fix_block(node.body)
+    ast.fix_missing_locations(tree)
+
+
+def _namedtuple_class(name, st):
+    """``N = namedtuple('N', [fields])`` as a synthetic class whose
+    initialiser stores its parameters in attributes of the same names."""
+    v = st.value
+    if not (isinstance(v, ast.Call) and len(v.args) >= 2 and
+            ast.unparse(v.func).split('.')[-1] == 'namedtuple'):
+        return None
+    fl = v.args[1]
+    if isinstance(fl, (ast.List, ast.Tuple)) and all(
+            isinstance(e, ast.Constant) and isinstance(e.value, str)
+            for e in fl.elts):
+        fields = [e.value for e in fl.elts]
+    elif isinstance(fl, ast.Constant) and isinstance(fl.value, str):
+        fields = fl.value.replace(',', ' ').split()
+    else:
+        return None
+    if not fields or not all(f.isidentifier() for f in fields):
+        return None
+    src = 'class %s:\n    def __init__(self, %s):\n%s' % (
+        name, ', '.join(fields),
+        ''.join('        self.%s = %s\n' % (f, f) for f in fields))
+    cd = ast.parse(src).body[0]
+    for n in ast.walk(cd):
+        if hasattr(n, 'lineno'):
+            n.lineno = n.end_lineno = st.lineno
+            n.col_offset = n.end_col_offset = 0
+    return cd
+
+
 class Program:
     """All modules directly under <repo>/file_builder (tests and samples
     are user-side code and are excluded)."""
@@ -125,6 +298,8 @@ class Program:
     def _load_module(self, mod, tree, relfile):
         imps = {}
         globs = {}
+        _inline_simple_properties(tree)
+        _hoist_walrus(tree)
         for st in tree.body:
             if isinstance(st, ast.Import):
                 for a in st.names:
@@ -155,6 +330,16 @@ class Program:
                 for t in st.targets:
                     if isinstance(t, ast.Name):
                         globs[t.id] = st.value
+                        cd = _namedtuple_class(t.id, st)
+                        if cd is not None:
+                            c = Cls(mod, cd)
+                            c.synthetic = True
+                            self.classes[c.name] = c
+                            m = cd.body[0]
+                            f = Func(mod, c.name, m)
+                            f.file = relfile
+                            c.methods[m.name] = f
+                            self.funcs[f.qualname] = f
         # imports inside functions are treated like module-level ones, so
         # that a locally imported primitive cannot evade classification
         for st in ast.walk(tree):
@@ -244,6 +429,45 @@ class Program:
 
     def parent(self, node):
         return self._parents.get(id(node))
+
+    def single_local_def(self, f, name):
+        """The value of the only assignment to local ``name`` in f (None if
+        it is assigned more than once or in another way)."""
+        vals = []
+        for n in ast.walk(f.node):
+            if isinstance(n, ast.Assign):
+                for t in n.targets:
+                    for x in ast.walk(t):
+                        if isinstance(x, ast.Name) and x.id == name:
+                            vals.append(n.value if t is x else None)
+            elif isinstance(n, (ast.AugAssign, ast.For, ast.NamedExpr,
+                                ast.comprehension)):
+                tgt = n.target
+                for x in ast.walk(tgt):
+                    if isinstance(x, ast.Name) and x.id == name:
+                        vals.append(None)
+            elif isinstance(n, ast.With):
+                for it in n.items:
+                    if it.optional_vars is not None:
+                        for x in ast.walk(it.optional_vars):
+                            if isinstance(x, ast.Name) and x.id == name:
+                                vals.append(None)
+            elif isinstance(n, ast.ExceptHandler) and n.name == name:
+                vals.append(None)
+        if len(vals) == 1:
+            return vals[0]
+        return None
+
+    def enclosing_func(self, node):
+        n = node
+        while n is not None:
+            n = self._parents.get(id(n))
+            if isinstance(n, ast.FunctionDef):
+                for f in self.funcs.values():
+                    if f.node is n:
+                        return f
+                return None
+        return None
 
     def mro(self, cname):
         out = []
@@ -343,6 +567,9 @@ class Program:
         self.param_types = {}    # (qualname, param) -> set
         self.local_types = {}    # (qualname, name) -> set
         self.ret_types = {}      # qualname -> set
+        # element types of containers - tracked for namedtuple-like value
+        # objects only: (class, attr) / ('local', qualname, name) -> set
+        self.elem_types = {}
         self._assigns = {}
         for f in self.funcs.values():
             self._assigns[f.qualname] = self._collect_assigns(f)
@@ -401,6 +628,7 @@ class Program:
                     if rt in self.classes:
                         changed |= self._add(
                             self.attr_types, (rt, tgt.attr), ts)
+        changed |= self._infer_elems(f)
         for n in ast.walk(f.node):
             if isinstance(n, ast.Return) and n.value is not None:
                 ts = self.type_of(n.value, f)
@@ -410,6 +638,71 @@ class Program:
                 for g in self.resolve_call(n, f):
                     if isinstance(g, Func):
                         changed |= self._flow_args(n, f, g)
+        return changed
+
+    def _synthetic(self, ts):
+        return {t for t in ts
+                if getattr(self.classes.get(t), 'synthetic', False)}
+
+    def _elem_keys(self, x, f):
+        if isinstance(x, ast.Name):
+            return [('local', f.qualname, x.id)]
+        if isinstance(x, ast.Attribute):
+            return [(c, x.attr) for rt in self.type_of(x.value, f)
+                    if rt in self.classes for c in [rt]]
+        return []
+
+    def elem_of(self, e, f):
+        """Value-object classes the elements of container ``e`` can be."""
+        ts = set()
+        if isinstance(e, (ast.Name, ast.Attribute)):
+            for k in self._elem_keys(e, f):
+                ts |= self.elem_types.get(k, set())
+            if isinstance(e, ast.Attribute):
+                for rt in self.type_of(e.value, f):
+                    for c in self.mro(rt) if rt in self.classes else []:
+                        ts |= self.elem_types.get((c, e.attr), set())
+        elif isinstance(e, ast.Call):
+            if isinstance(e.func, ast.Name) and e.func.id in (
+                    'list', 'sorted', 'reversed', 'tuple', 'set',
+                    'iter') and e.args:
+                ts |= self.elem_of(e.args[0], f)
+            elif isinstance(e.func, ast.Attribute) and e.func.attr in (
+                    'values', 'copy'):
+                ts |= self.elem_of(e.func.value, f)
+        elif isinstance(e, (ast.List, ast.Tuple, ast.Set)):
+            for x in e.elts:
+                ts |= self._synthetic(self.type_of(x, f))
+        return ts
+
+    def _infer_elems(self, f):
+        if not any(getattr(c, 'synthetic', False)
+                   for c in self.classes.values()):
+            return False
+        changed = False
+        q = f.qualname
+        for n in ast.walk(f.node):
+            if isinstance(n, ast.Call) and isinstance(
+                    n.func, ast.Attribute) and n.func.attr in (
+                        'append', 'add') and len(n.args) == 1:
+                ts = self._synthetic(self.type_of(n.args[0], f))
+                for k in self._elem_keys(n.func.value, f) if ts else []:
+                    changed |= self._add(self.elem_types, k, ts)
+            elif isinstance(n, ast.Assign):
+                for t in n.targets:
+                    if isinstance(t, ast.Subscript):
+                        ts = self._synthetic(self.type_of(n.value, f))
+                        for k in self._elem_keys(t.value, f) if ts else []:
+                            changed |= self._add(self.elem_types, k, ts)
+                    elif isinstance(t, (ast.Name, ast.Attribute)):
+                        ts = self.elem_of(n.value, f)
+                        for k in self._elem_keys(t, f) if ts else []:
+                            changed |= self._add(self.elem_types, k, ts)
+            elif isinstance(n, (ast.For, ast.comprehension)):
+                ts = self.elem_of(n.iter, f)
+                if ts and isinstance(n.target, ast.Name):
+                    changed |= self._add(self.local_types,
+                                         (q, n.target.id), ts)
         return changed
 
     def bind_args(self, call, g):
@@ -422,6 +715,10 @@ class Program:
         for a in call.args:
             if isinstance(a, ast.Starred):
                 v = a.value
+                if isinstance(v, ast.Name):
+                    cf = self.enclosing_func(call)
+                    if cf is not None and v.id not in cf.all_param_names():
+                        v = self.single_local_def(cf, v.id) or v
                 if (isinstance(v, ast.BinOp) and isinstance(v.op, ast.Add) and
                         isinstance(v.right, ast.List)):
                     k = len(v.right.elts)
@@ -494,9 +791,14 @@ class Program:
                         ts.add(g[5:])
                     elif g in self.EXT_CTORS:
                         ts.add(self.EXT_CTORS[g])
+            if not ts and self.elem_types and isinstance(
+                    e.func, ast.Attribute) and e.func.attr in ('get', 'pop'):
+                ts = self.elem_of(e.func.value, f)
             return ts
         if isinstance(e, ast.IfExp):
             return self.type_of(e.body, f) | self.type_of(e.orelse, f)
+        if isinstance(e, ast.Subscript) and self.elem_types:
+            return self.elem_of(e.value, f)
         if isinstance(e, (ast.List, ast.ListComp)):
             return {'ext:list'}
         if isinstance(e, (ast.Set, ast.SetComp)):
@@ -533,6 +835,15 @@ class Program:
             if nm in f.all_param_names():
                 return ['USER']
             if self.is_local(f, nm):
+                # a local bound once to getattr(self, name): the same
+                # dynamic dispatch, one statement earlier
+                v = self.single_local_def(f, nm)
+                if (isinstance(v, ast.Call) and isinstance(
+                        v.func, ast.Name) and v.func.id == 'getattr' and
+                        len(v.args) >= 2):
+                    fake = ast.Call(func=v, args=call.args,
+                                    keywords=call.keywords)
+                    return self.resolve_call(fake, f)
                 return ['unknown:local:' + nm]
             d = self.dotted(fn, f)
             if d is None:
